@@ -127,6 +127,15 @@ def build_value(v, env):
     k = v[0]
     if k == "inst":
         return env[v[1]]()
+    if k == "eqinst":
+        # an instance (of an ad-hoc subclass) that compares EQUAL to every object: identity is what counts wherever the
+        # library has to tell objects apart (the receiver of a method, a sentinel)
+        base = env[v[1]]
+        cls = _EQ_CLASSES.get(base)
+        if cls is None:
+            cls = _EQ_CLASSES[base] = type(base.__name__ + "Eq", (base,), {
+                "__eq__": lambda a, b: True, "__ne__": lambda a, b: False, "__hash__": lambda a: 0})
+        return cls()
     if k == "float":
         return float(v[1])  # also "inf" / "nan"
     if k == "ustr":
@@ -158,6 +167,9 @@ def build_value(v, env):
     if k == "any":
         return typing.Any
     raise ValueError(v)
+
+
+_EQ_CLASSES = {}
 
 
 def lit_value(x):
